@@ -1,4 +1,6 @@
 pub mod c01;
 pub mod c03;
+pub mod c04;
+pub mod edit;
 pub mod c06;
 pub mod c09;
